@@ -2,6 +2,7 @@ package main
 
 import (
 	"fmt"
+	"go/types"
 	"strings"
 
 	"golang.org/x/tools/go/ssa"
@@ -189,6 +190,35 @@ func runC10Alias(c *Ctx) {
 				}
 			}
 		}
+		// (3) exported constructors taking raw coordinate slices return values that do not alias them
+		if f.Parent() == nil && isExportedAPI(f) && fn != "geom.NewSequence" && f.Signature.Recv() == nil {
+			res := f.Signature.Results()
+			if res.Len() >= 1 && protectedName(res.At(0).Type()) != "" {
+				var rawParams []*ssa.Parameter
+				for _, p := range f.Params {
+					if isSliceType(p.Type()) && protectedName(p.Type()) == "" && isFloatSliceNest(p.Type()) {
+						rawParams = append(rawParams, p)
+					}
+				}
+				if len(rawParams) > 0 {
+					n++
+					bad := ""
+					for _, r := range returnsOf(f) {
+						info := env.of(r.Results[0])
+						for b := range info.bases {
+							if b.kind == bkParam {
+								for _, rp := range rawParams {
+									if b.param == rp {
+										bad = "parameter " + rp.Name()
+									}
+								}
+							}
+						}
+					}
+					c.Check(bad == "", f.Pos(), fn, "result independent of the coordinate arguments", "the geometry returned is built from copies of the caller's coordinate slices", "the geometry returned still refers to the caller's own coordinate slice ("+bad+", at some nesting level): when the caller reuses its buffers the geometry, its WKT/WKB and envelope change after construction")
+				}
+			}
+		}
 		// (2) slices stored into fields of freshly built protected values
 		eachInstr(f, func(in ssa.Instruction) {
 			st, ok := in.(*ssa.Store)
@@ -239,4 +269,18 @@ func isExportedAPI(f *ssa.Function) bool {
 
 func isExportedName(s string) bool {
 	return s != "" && s[0] >= 'A' && s[0] <= 'Z'
+}
+
+// isFloatSliceNest: []float64, [][]float64, [][][]float64 …
+func isFloatSliceNest(t types.Type) bool {
+	for {
+		st, ok := t.Underlying().(*types.Slice)
+		if !ok {
+			return false
+		}
+		if bt, ok := st.Elem().Underlying().(*types.Basic); ok {
+			return bt.Kind() == types.Float64
+		}
+		t = st.Elem()
+	}
 }
